@@ -14,7 +14,7 @@ LEVEL = "exploration"
 RULE = ("conditions = operator x (state value on the goal boundary, one step either side, at goal+-tol and one step beyond) "
         "x goal kind (direct literal / indirect share / framer clock) x negation x conjunctions up to 3 x tolerance incl 0 "
         "and negative x value types (int, float, negative, zero, string, boolean); grid enumerated exhaustively, "
-        "conjunctions sampled; distinct = distinct rendered condition + state values; non-trivial = the condition was "
+        "conjunctions sampled; conditions with clock clauses inside two clones of one moot framer entered at different ticks; distinct = distinct rendered condition + state values; non-trivial = the condition was "
         "evaluated at least once by a running framer (framer reached tick 1)")
 META = {"engine": "A floscript", "technique": "runtime monitor of transition tick vs direct evaluation of the written comparison",
         "level_text": "Each generated condition guards a transition in a real framer run; the tick of the transition (or its absence) "
